@@ -183,3 +183,65 @@ def check(run, prog, tier):
 
     # ---- C02-l
     divrule.check(run, prog, "C02-l", lambda p: any(p.endswith(u) for u in UNITS) or p.endswith(("grammar.y", "grammar.c")), evaluators=("cond_get_exp",), minimum=2)
+
+
+def check_rebase(run, prog):
+    """C02-n: frame pointers into tables that are reallocated are rebased with an offset taken from a pointer of the
+    same index space.  Index spaces are read off the code: two global pointers that are advanced by the same
+    expression in the same function (`locals_ptr += current_number_of_locals; runtime_locals_ptr +=
+    current_number_of_locals`) index their tables alike; a pointer advanced by a different expression
+    (`type_of_locals_ptr += max_num_locals`) does not."""
+    run.rule("C02-n", "compiler tables: after a reallocation a frame pointer is rebased (`P = base + off`) with an offset that was measured on a pointer of the same index space (pointers advanced by the same expression in lock step), not on one that moves by a different amount per nested frame", 2)
+    funcs = [f for f in sorted(prog.functions(), key=lambda x: (x.file, x.line)) if in_units(f)]
+    # lock-step classes
+    adv = {}
+    for f in funcs:
+        for b, i, n in f.nodes():
+            if n.get("k") == "Asg" and n.get("op") in ("+=", "-=") and strip(n["L"]).get("k") == "Ref" and strip(n["L"]).get("d") in ("global", "static") and (strip(n["L"]).get("t") or "").endswith("*"):
+                adv.setdefault((f.name, show(strip(n["R"]))), set()).add(strip(n["L"]).get("n"))
+    cls = {}
+    for (fn, e), names in adv.items():
+        for nm in names:
+            cls.setdefault(nm, set()).add(e)
+    nreb = 0
+    for f in funcs:
+        for b, i, n in f.nodes():
+            if not (n.get("k") == "Asg" and n.get("op") == "=" and strip(n["L"]).get("k") == "Ref" and strip(n["L"]).get("d") in ("global", "static")):
+                continue
+            P = strip(n["L"]).get("n")
+            r = strip(n["R"])
+            if P not in cls or not (r.get("k") == "Bin" and r.get("op") == "+" and strip(r["R"]).get("k") == "Ref" and strip(r["R"]).get("d") == "local"):
+                continue
+            off = strip(r["R"])
+            # where the offset was measured: off = Q - C (assignment or initialiser), the last one that dominates
+            qs = []
+            for b2, i2, n2 in f.nodes():
+                e = None
+                if n2.get("k") == "Asg" and n2.get("op") == "=" and strip(n2["L"]).get("id") == off.get("id") and strip(n2["L"]).get("k") == "Ref":
+                    e = strip(n2["R"])
+                elif n2.get("k") == "Decl":
+                    for vv in n2.get("vars", []):
+                        if vv.get("id") == off.get("id") and "init" in vv:
+                            e = strip(vv["init"])
+                if e is not None and e.get("k") == "Bin" and e.get("op") == "-" and f.point_dominates((b2.id, i2), (b.id, i)):
+                    q = [x.get("n") for x in walk(e["L"]) if x.get("k") == "Ref" and x.get("d") in ("global", "static")]
+                    if q:
+                        qs.append((n2.get("l") or 0, b2.id, i2, q[0]))
+            if not qs:
+                continue
+            # the dominating definition closest to the use
+            qs.sort()
+            Q = qs[-1][3]
+            for cand in reversed(qs):
+                if all(f.point_dominates((c[1], c[2]), (cand[1], cand[2])) or c is cand for c in qs):
+                    Q = cand[3]
+                    break
+            nreb += 1
+            run.saw(f)
+            same = Q == P or (Q in cls and cls[Q] & cls[P])
+            run.ob("C02-n", "rebase:%s:%s:%s" % (rel(f.file), f.name, P), bool(same),
+                   "%s is rebased with the offset of %s, which advances in lock step with it (%s)" % (P, Q, sorted(cls[P])[0]) if same else
+                   "%s is rebased with an offset measured on %s, but %s moves by `%s` per nested frame and %s by `%s`: after a reallocation inside a nested function the frame pointer is off by the difference" % (
+                       P, Q, P, sorted(cls[P])[0], Q, sorted(cls.get(Q, {"?"}))[0]), f.file, n.get("l"), f.name,
+                   what="%s rebases %s with the offset of a pointer from another index space (%s)" % (f.name, P, Q))
+    run.need(nreb >= 2, "rebased frame pointers (found %d)" % nreb)
